@@ -308,6 +308,9 @@ def run(rep):
              'C06 R06.5)', floor=10)
     rep.rule('F9', 'super dispatch precedes attribute probes in both twins '
              '(C19 R19.1)', floor=4)
+    rep.rule('F10', 'getObjectSpecification: both twins answer with the '
+             'object\'s own specification, else implementedBy of the class the '
+             'object reports (ob.__class__), else the empty declaration', floor=2)
     rep.decline('equality of results, exception points and subsequent '
                 'behaviour for arbitrary API programs (that is differential '
                 'execution; only the structural core is decided)')
@@ -441,6 +444,9 @@ def run(rep):
         inv5(rep, amod, table, rule='F8')
     finally:
         rep.check = saved
+
+    from . import csem as _csem
+    _csem.object_specification_twins(rep, 'F10', u, repo.module('declarations.py'))
 
     # ---- F6 / F7 -------------------------------------------------------------------
     from . import C12 as c12
